@@ -17,6 +17,8 @@ Record case := mk {
   c_bare : option obs;                 (* None: the handler wrote nothing *)
   c_full : option (obs * sizes);       (* UDP cases *)
   c_self : option sizes;               (* length table of the transport reply itself *)
+  c_nwrites : N;                       (* messages the bare handler handed to its ResponseWriter *)
+  c_extra : N;                         (* messages that arrived after the reply on the same socket *)
   c_alive : bool }.
 
 (* ---------------------------------------------------------------- comparisons *)
@@ -90,7 +92,8 @@ Definition model_ok (c : case) : bool :=
   | Panic, None => negb (c_alive c)
   | NoReply, None => c_alive c
   | Reply m, Some o =>
-      c_alive c && msg_eqv (c_multi c) m (o_msg o) &&
+      (* the model's outcome is ONE reply: a second message on the socket is a break *)
+      c_alive c && (c_extra c =? 0) && msg_eqv (c_multi c) m (o_msg o) &&
       (if db_path c then
          match c_bare c with Some b => o_wire b =? o_wire o | None => false end &&
          match c_full c with
@@ -171,10 +174,16 @@ Definition spec_udp_fits (c : case) : bool :=
   | _, _ => true
   end.
 
+(* one query, at most one message: nothing follows the reply on the connection, and
+   the database handler hands exactly one message to its writer when it answers *)
+Definition spec_one_message (c : case) : bool :=
+  (c_extra c =? 0) &&
+  match c_bare c with Some _ => c_nwrites c =? 1 | None => c_nwrites c =? 0 end.
+
 Definition spec_ok (c : case) : bool :=
   let cfg := c_cfg c in
   let r := c_req c in
-  c_alive c && spec_udp_fits c &&
+  c_alive c && spec_udp_fits c && spec_one_message c &&
   if negb (spec_accepts cfg r) then
     match c_reply c with
     | None => hqr (mh r)
